@@ -25,6 +25,19 @@ def copy_repo(dst):
                 shutil.copy(p, os.path.join(dst, 'tests', n))
 
 
+def on_reference_tree():
+    """True iff /repo is exactly the commit recorded in selftest/REFERENCE with no tracked file modified."""
+    try:
+        ref = open(os.path.join(VERIF, 'selftest', 'REFERENCE')).read().split()[0]
+        head = subprocess.run(['git', '-C', REPO, 'rev-parse', 'HEAD'], stdout=subprocess.PIPE, stderr=subprocess.DEVNULL,
+                              text=True)
+        st = subprocess.run(['git', '-C', REPO, 'status', '--porcelain', '--untracked-files=no'], stdout=subprocess.PIPE,
+                            stderr=subprocess.DEVNULL, text=True)
+        return head.returncode == 0 and st.returncode == 0 and head.stdout.strip() == ref and not st.stdout.strip()
+    except Exception:
+        return False
+
+
 def parse_meta(path):
     exp, what = [], ''
     for ln in open(path):
